@@ -798,7 +798,6 @@ func (s *seqRT) ruleIters() {
 
 var _ = constant.MakeInt64
 
-
 // linearForm: sum of atoms with integer coefficients plus a constant. Atoms are symbols and every
 // sub-expression that is not +, - (rendered canonically): len(x), convert(...), ...
 type linearForm struct {
